@@ -22,6 +22,7 @@ type Stats struct {
 	LatestWrites    int
 	StartsNoTraffic int
 	StartsTotal     int
+	ModeSwitches    int // starts configured with another mode than the previous start
 	Refusals        int
 	Inconclusive    []string
 }
@@ -53,11 +54,13 @@ func badClass(b string) string {
 func (e *Env) Judge(l *RunLog) ([]Finding, Stats) {
 	var fs []Finding
 	var st Stats
-	ctx := e.C.Ctx()
+	ctx := ""
 	add := func(sig, format string, a ...any) {
 		fs = append(fs, Finding{sig + "|" + ctx, fmt.Sprintf(format, a...)})
 	}
-	v := Interpret(l.Lineage(), e.Units, e.C.Frontier(), e.RunID)
+	// at: findings about request req carry the mode of the instance that issued it
+	at := func(req int64) { ctx = e.C.Ctx(l.modeAt(req), l.switchedAt(req, e.C.Mode)) }
+	v := Interpret(l.Lineage(), e.Units, e.RunID)
 	own := func(req int64) bool { return req > l.SeqBase }
 	base := e.C.Base
 	isBoundary := func(off int64) bool { return off == base || e.EndUnit[off] != nil }
@@ -75,6 +78,7 @@ func (e *Env) Judge(l *RunLog) ([]Finding, Stats) {
 	// ---- atomic visibility: a unit's data and its record appear in the same target transaction
 	for _, s := range v.Strays {
 		if own(s.ReqSeq) {
+			at(s.ReqSeq)
 			kind := "record-outside-unit-transaction"
 			if strings.HasPrefix(s.What, "business") {
 				kind = "business-command-outside-unit-transaction"
@@ -86,8 +90,11 @@ func (e *Env) Judge(l *RunLog) ([]Finding, Stats) {
 		if !own(t.Txn) {
 			continue
 		}
+		at(t.Txn)
 		if t.Bad != "" {
 			add("atomic|unit-transaction-incomplete|"+badClass(t.Bad), "target transaction ending at request %d: %s", t.Txn, t.Bad)
+		} else if fm := l.modeAt(t.Txn).UsesFrontier(); (fm && t.RecCls != KCommit) || (!fm && t.RecCls != KLatest) {
+			add("atomic|unit-transaction-incomplete|wrong-record-kind", "target transaction ending at request %d: %s mode unit carries a %s record", t.Txn, l.modeAt(t.Txn), t.RecCls)
 		}
 	}
 
@@ -96,6 +103,7 @@ func (e *Env) Judge(l *RunLog) ([]Finding, Stats) {
 	for i := range v.Frontier {
 		f := &v.Frontier[i]
 		if own(f.ReqSeq) {
+			at(f.ReqSeq)
 			st.FrontierSaves++
 			switch {
 			case f.Txn != 0:
@@ -130,6 +138,7 @@ func (e *Env) Judge(l *RunLog) ([]Finding, Stats) {
 	for i := range v.Latest {
 		w := &v.Latest[i]
 		if own(w.ReqSeq) {
+			at(w.ReqSeq)
 			st.LatestWrites++
 			if prevL != nil && w.Off < prevL.Off {
 				add("monotone|stored-latest-decreased", "request %d stored latest offset %d after %d (request %d)", w.ReqSeq, w.Off, prevL.Off, prevL.ReqSeq)
@@ -153,7 +162,11 @@ func (e *Env) Judge(l *RunLog) ([]Finding, Stats) {
 			}
 			continue
 		}
+		ctx = e.C.Ctx(s.Mode, l.switchedAt(s.ReqFrom, e.C.Mode))
 		st.StartsTotal++
+		if s.Mode != s.PrevMode {
+			st.ModeSwitches++
+		}
 		if !s.Traffic {
 			st.StartsNoTraffic++
 		}
@@ -168,6 +181,10 @@ func (e *Env) Judge(l *RunLog) ([]Finding, Stats) {
 			if strings.Contains(s.Err.Error(), "journal gap") {
 				st.Refusals++
 				add("restart|start-point-refused|journal-gap", "%s: StartPoint fails with %q — the instance cannot resume from the state the previous (interrupted) start-up left", where, s.Err.Error())
+			} else if strings.Contains(s.Err.Error(), "no bisync authoritative migration seed found") {
+				// only provoked from states with committed units (switchPlan): the namespace has lost its recovery state
+				st.Refusals++
+				add("restart|migration-refused|no-recovery-state", "%s: start-up fails with %q although units are committed in this namespace", where, s.Err.Error())
 			} else {
 				st.Inconclusive = append(st.Inconclusive, fmt.Sprintf("%s: %v", where, s.Err))
 			}
@@ -197,7 +214,7 @@ func (e *Env) Judge(l *RunLog) ([]Finding, Stats) {
 		default:
 			if u := uncommittedUpTo(R, s.ReqDone); u != nil {
 				add("resume|skips-uncommitted-unit", "%s: resume offset %d covers unit %d (ends %d, ids %v) which the target never committed", where, R, u.Idx, u.End, u.IDs)
-			} else if !e.C.Frontier() && R != maxEnd {
+			} else if !s.Mode.UsesFrontier() && R != maxEnd {
 				add("resume|sync-mode-repeats-committed-units", "%s: resume offset %d but the last committed unit ends at %d: %d committed units would be applied a second time", where, R, maxEnd, countBetween(e.Units, committed, R))
 			}
 		}
@@ -220,6 +237,7 @@ func (e *Env) Judge(l *RunLog) ([]Finding, Stats) {
 		if !s.Traffic || s.Err != nil {
 			continue
 		}
+		ctx = e.C.Ctx(s.Mode, l.switchedAt(s.ReqFrom, e.C.Mode))
 		var got []*TUnit
 		for _, t := range v.TUnits {
 			if own(t.Txn) && t.Txn > s.ReqDone && t.Complete() {
@@ -244,7 +262,7 @@ func (e *Env) Judge(l *RunLog) ([]Finding, Stats) {
 		for k, t := range got {
 			if before[t.Unit.Idx] > 0 {
 				st.UnitsRepeated++
-				if !e.C.Frontier() {
+				if !s.Mode.UsesFrontier() {
 					add("resumed-run|sync-mode-unit-applied-twice", "resumed from %d: unit %d (ids %v) committed again by request %d although it was committed before the restart", s.SP.Offset, t.Unit.Idx, t.Unit.IDs, t.Txn)
 					break
 				}
@@ -282,7 +300,7 @@ func countBetween(units []Unit, committed map[int]int, r int64) int {
 
 // Repeats reports whether the traffic start of l re-committed a unit committed before it.
 func (e *Env) Repeats(l *RunLog) bool {
-	v := Interpret(l.Lineage(), e.Units, e.C.Frontier(), e.RunID)
+	v := Interpret(l.Lineage(), e.Units, e.RunID)
 	for i := range l.Starts {
 		s := &l.Starts[i]
 		if !s.Traffic || s.Initial {
